@@ -1,5 +1,18 @@
 import Driver.Util
 import Driver.OpsAlign
+import Driver.OpsX86Relax
+import Driver.OpsLink
+import Driver.OpsStrMerge
+import Driver.OpsExpr
+import Driver.OpsProtoMerge
+import Driver.OpsProtoLayout
+import Driver.OpsShQuote
+import Driver.OpsInsn
+import Driver.OpsReloc
+import Driver.OpsGlob
+import Driver.OpsVersion
+import Driver.OpsProc
+import Driver.OpsFs
 /-! `wmdriver`: evaluates the executable Lean models on the same line protocol as `wvh`. -/
 namespace Driver
 
@@ -11,6 +24,19 @@ def dispatch (t : List String) : String :=
     -- each `opsX` returns `none` for ops it does not own; ADD-OPS-HERE
     let r : Option String :=
       (opsAlign t)
+      <|> (opsLink t)
+      <|> (opsX86Relax t)
+      <|> (opsStrMerge t)
+      <|> (opsExpr t)
+      <|> (opsProtoMerge t)
+      <|> (opsProtoLayout t)
+      <|> (opsShQuote t)
+      <|> (opsInsn t)
+      <|> (opsReloc t)
+      <|> (opsGlob t)
+      <|> (opsVersion t)
+      <|> (opsProc t)
+      <|> (opsFs t)
       -- <|> (opsFoo t)
     r.getD "bad-op"
 
